@@ -605,11 +605,13 @@ ROUND10_TEXT = (" DEADLOOP (verdict for the files in the directories of the anch
                 "overwritten a statement earlier makes the loop that does the bulk of the work one that never runs). PARAMCLASS (reference table): the cuts at which a function "
                 "compares an integer parameter with constants are those of the unchanged tree: a cut that vanished while a new one appeared for the same parameter is a case limit that moved. "
                 "CONSTIFACE also records which function is handed on as a callback at each call position (file-local forwarders looked through). "
-                "SUMWRAP: in a limit test `a + b <relop> c` on 64-bit unsigned operands into which a parameter the function has not bounded yet enters, the interval analysis (sizes and offsets stored in buffers, slices and fragments bounded by PTRDIFF_MAX) keeps the sum below 2^64; sums of derived locals that intervals cannot bound are listed as not decided.")
+                "SUMWRAP: in a limit test `a + b <relop> c` on 64-bit unsigned operands into which a parameter the function has not bounded yet enters, the interval analysis (sizes and offsets stored in buffers, slices and fragments bounded by PTRDIFF_MAX) keeps the sum below 2^64; sums of derived locals that intervals cannot bound are listed as not decided. "
+                "ENDDEREF: a local that receives the end position of a range (x.end()) is compared, never dereferenced.")
 for _pid, _spec in PROPS.items():
     _spec["rules"].append({"run": rules_path.run_deadloop, "floor": 300, "scope": "anchor-dirs"})
     _spec["rules"].append({"run": rules_effect.run_paramclass, "floor": 300, "scope": "anchor-dirs"})
     _spec["rules"].append({"run": rules_types.run_sumwrap, "floor": 1, "scope": "anchor-dirs"})
+    _spec["rules"].append({"run": rules_types.run_endderef, "floor": 15, "scope": "anchor-dirs"})
     _spec["explanation"] += ROUND10_TEXT
 _ADD10 = {
     "C03": ([{"run": rules_path.run_maxstore, "floor": 3, "ctx": {"files_of": "C13"}}],
